@@ -26,7 +26,8 @@ RULES = {
            "MaxSteps in {column swap, column negation, Hadamard/2 block on 4 columns, appended zero column}; non-trivial = "
            "Q is not the identity and the instance has rank >= 2 and a negative Gramian entry (projection-based weights differ from the mean)",
     "C09": "one case = (instance, c1, c2, a, b, scale 2^e, aggregator) with c entries in {1, 2^10, 2^20} (6 orders of magnitude), a, b in 1..3; "
-           "non-trivial = c1 != c2, one of them non-uniform, conflicting rows; UPGrad additionally over reg_eps in 1e-2..1e-12 and norm_eps in {1e-4, 1e-2, 1e-6}",
+           "non-trivial = c1 != c2, one of them non-uniform, conflicting rows; UPGrad additionally over reg_eps in 1e-2..1e-12 and norm_eps in {1e-4, 1e-2, 1e-6}, "
+           "including scales at which the singular values of diag(c) J lie on both sides of norm_eps (largest above, a non-zero one below; decided exactly)",
     "C10": "one case = (instance, row permutation, parameter vectors permuted with the rows, scale 2^e, aggregator); ALL m! permutations of "
            "every instance (m <= 4 quick, m <= 5 thorough); non-trivial = non-identity permutation of an instance with different rows and a non-constant parameter vector",
 }
@@ -67,7 +68,15 @@ def _run(ctx: Ctx, replay: str | None, pid: str) -> None:
         ctx.note("UPGrad ladder: defect <= K*sqrt(reg_eps)*sum_t k_t s_t V_t + float floor, K = 2 (theory: 1, Tikhonov / projection "
                  "inequality), V_t = sum_i c_i u_i |D^-1 z0(e_i)| the weight norm of the UNREGULARISED projection; the bound decreases "
                  "monotonically to the float floor as reg_eps -> 0; measured defect/bound maxima are in measured_dev_over_allowance_max. "
-                 "Triples whose three matrices are not on the same side of norm_eps (decided exactly) are skipped and counted.")
+                 "Triples whose three matrices are not on the same side of norm_eps (decided exactly) are skipped and counted. "
+                 "sigma_max(2^e diag(c) J) is bracketed by the squared row norms (max_i c_i^2|g_i|^2 <= sigma_max^2 <= sum_i c_i^2|g_i|^2, "
+                 "spec RowBracket), so triples with widely spread c are decided; the ladder also runs at the ladder-only scales "
+                 "(aggsym_driver.LADDER_SCALES) where norm_eps lies BETWEEN the rows of diag(c) J: the largest singular value is above "
+                 "norm_eps, a non-zero one is certified below (counted in ladder_triples_with_singular_values_on_both_sides_of_norm_eps).")
+        for k in ("ladder_triples_with_singular_values_on_both_sides_of_norm_eps", "ladder_triples_straddling_the_default_norm_eps"):
+            ctx.extra[k] = ctx.counters.get(k, 0)
+            if not ctx.counters.get(k):
+                raise MachineryError(f"vacuous UPGrad ladder: {k} = 0")
     n_ep = SETTINGS[pid][ctx.tier][4]
     ctx.extra["trace_summary"] = run_cs(ctx, pid, n_ep)
 
